@@ -220,6 +220,11 @@ fn make_cf<F: Read + Write + Seek>(file: F, version: Version, bufsize: Option<us
 fn replay_file(name: &str, steps: &[Step], version: Version, dir: &str, via_path: bool, rep: &mut Report) -> Result<RunResult, String> {
     let path = format!("{dir}/{name}.cfb");
     let _ = std::fs::remove_file(&path);
+    if via_path {
+        // cfb::create promises to overwrite an existing file: leave an older, larger one there
+        let _ = std::fs::write(&path, vec![0xEEu8; 150_000 + (steps.len() % 7) * 4096]);
+        rep.count("real_files_replacing_an_older_larger_file");
+    }
     let cf: CompoundFile<std::fs::File> = if via_path && version == Version::V4 {
         cfb::create(&path).map_err(|e| format!("{name}: cfb::create failed: {e}"))?
     } else {
